@@ -54,15 +54,17 @@ theorem fromSeries_ok {l r : Labelled} (h : fromSeries l = .ok r) :
   · cases h
   · split at h
     · cases h
-    · rename_i hany
-      injection h with h
-      subst h
-      refine ⟨rfl, ?_⟩
-      intro p hp
-      by_contra hle
-      apply hany
-      rw [List.any_eq_true]
-      exact ⟨p, hp, by simpa using hle⟩
+    · split at h
+      · cases h
+      · rename_i hany
+        injection h with h
+        subst h
+        refine ⟨rfl, ?_⟩
+        intro p hp
+        by_contra hle
+        apply hany
+        rw [List.any_eq_true]
+        exact ⟨p, hp, by simpa using hle⟩
 
 theorem fromSeries_total {l r : Labelled} (h : fromSeries l = .ok r) : total r = total l := by
   rw [(fromSeries_ok h).1, total_filter_ne_zero]
